@@ -65,6 +65,9 @@ CHECKS = {
     "C18": ("exploration", "runtime monitoring: every name-id reference in fvar / STAT / GSUB+GPOS feature parameters walked from the emitted font and resolved in the name table; strings compared with the manifest and with an independent model of the documented naming fallbacks; 3 forced hash seeds per source",
             "Generated naming configurations (every naming field present or absent, RIBBI / non-RIBBI styles, axis, instance and PostScript names colliding with family / style / full / axis strings and with each other, one string under several reserved ids, featureNames / cvParameters (several features, repeated parameter labels) / table name in feature code, static and variable) are compiled under three hash seeds: bytes must agree, every referenced id must have a non-empty record, reserved ids appear only where the spec allows (2/17 for the default instance and the STAT elided fallback, 6 for a PostScript name), strings equal the source's, and ids 1-6, 16, 17 equal the model of ufo2ft's fallback rules.",
             "Only UFO/designspace naming fields that fontc maps are generated (postscriptFullName, localized names and STAT from feature code are not); an unused cvParameters field holding 0xFFFF is read as unset, like NULL.", "DESIGN.md §5 C18"),
+    "C19": ("exploration", "runtime monitoring: boundary-valued sources compiled by the release and the debug binary; outcome classification and agreement oracle, read-back of every planted value through the manifest oracles, own glyf delta decoder (32-bit accumulation) and resolved-shape comparison",
+            "Sources with one value at limit-1 / limit / limit+1 / far beyond (advances, coordinates and point-to-point distances, component offsets and 2x2 entries, kerning, anchors, 16-bit metrics, master-to-master deltas, unitsPerEm, weight and width class) are built in both profiles: the outcomes must agree (both fail, or byte-identical fonts); a representable value must be accepted and read back unchanged; a value beyond the limit must be rejected or handled so that the resolved outline is the source's; a stored glyf delta must not have wrapped.",
+            "Known findings F25-F29 (saturated anchors, kerning, global metrics, component offsets; a derived overflow in vertical_metrics.rs) are reported as KNOWN-FINDING; > 65535 glyphs is not generated (see DESIGN.md); agreement is between the two profiles that can be built, not all optimisation levels.", "DESIGN.md §5 C19"),
 }
 
 NOT_YET = {}
